@@ -2,7 +2,9 @@
 C28 — model loading errors point at the offending text.
 
 Path-exhaustive (level P) exploration with symx selectors: error kind (syntax
-error, unknown object, non-unique name, unresolvable postponed reference) x
+error, unknown object, non-unique name — duplicates in the same file or in an
+imported one —, unresolvable postponed reference) x line terminator of the
+model files (LF, CRLF, CR) x
 location (string model, main model file with and without imports, imported model file loaded last / not last) x reference form
 (single reference, 1st / 2nd / 3rd element of a reference list) x layout of
 the whitespace in front of the offending token (spaces, tabs, newlines).  Every
@@ -29,17 +31,19 @@ Import: 'import' importURI=STRING;
 Obj: 'obj' name=ID;
 User: 'user' name=ID ('ref' r=[Obj] | 'many' rs+=[Obj][',']) ';';
 """
-KINDS = ['syntax', 'unknown', 'notunique', 'unresolvable']
+KINDS = ['syntax', 'unknown', 'notunique', 'unresolvable', 'notunique-in-import']
+# line terminators of model files (read in text mode: each is one line end)
+EOLS = ['\n', '\r\n', '\r']
 WHERE = ['string', 'main', 'imported', 'main-with-import', 'imported-first-of-two', 'string-global-repo-provider']
 FORMS = ['single', 'list1', 'list2', 'list3']
 GAPS = [' ', '\n', '\n\n  ', '\t ', ' \n\t']
 MARK = '@@'
 
 
-def body(kind, form, gap, dup_here):
+def body(kind, form, gap, dup_here, import_dup=True):
     """text of the file holding the offending token; MARK marks the token"""
     objs = 'obj a obj b' + (' obj a' if dup_here else '') + '\n'
-    tok = {'syntax': '%', 'unknown': 'zz', 'notunique': 'a', 'unresolvable': 'b'}[kind]
+    tok = {'syntax': '%', 'unknown': 'zz', 'notunique': 'a', 'unresolvable': 'b', 'notunique-in-import': 'k'}[kind]
     if form == 'single':
         users = 'user u ref' + gap + MARK + tok + ' ;'
     elif form == 'list1':
@@ -48,14 +52,22 @@ def body(kind, form, gap, dup_here):
         users = 'user u many b,' + gap + MARK + tok + ', b ;'
     else:
         users = 'user u many b, b\n ,' + gap + MARK + tok + ' ;'
-    return objs + 'user t ref b ;\n' + users + '\nuser w ref b ;'
+    head = 'import "dup.m"\n' if kind == 'notunique-in-import' and import_dup else ''
+    return head + objs + 'user t ref b ;\n' + users + '\nuser w ref b ;'
 
 
 def build(kind, where, form, gap):
     """{'main': text, 'lib.m': text} (or string model) and the offending file"""
     files = {}
+    import_dup = True
     if where == 'string-global-repo-provider':
         where = 'string'
+        import_dup = False        # the pattern of the global-repository provider finds dup.m
+    if kind == 'notunique-in-import':
+        # the name is defined twice in a file the offending file imports: the offending text is the reference
+        files['dup.m'] = 'obj k\nobj k'
+        if where == 'string' and import_dup:
+            where = 'main'
     if where == 'imported':
         files['lib.m'] = body(kind, form, gap, kind == 'notunique')
         files['main'] = 'import "lib.m"\nobj c\nuser m ref c ;'
@@ -71,7 +83,7 @@ def build(kind, where, form, gap):
         files['main'] = 'import "lib.m"\nimport "lib2.m"\nobj c\nuser m ref c ;'
         off = 'lib.m'
     else:
-        files['main'] = body(kind, form, gap, kind == 'notunique')
+        files['main'] = body(kind, form, gap, kind == 'notunique', import_dup)
         off = 'main'
     text = files[off]
     pos = text.index(MARK)
@@ -82,12 +94,14 @@ def build(kind, where, form, gap):
     return files, off, pos, line, col
 
 
-def load(kind, where, form, gap):
+def load(kind, where, form, gap, eol='\n'):
     from textx import metamodel_from_str
     from textx.scoping import Postponed
     import textx.scoping.providers as P
     from textx.exceptions import TextXError
     files, off, pos, line, col = build(kind, where, form, gap)
+    if kind == 'notunique-in-import' and where == 'string':
+        where = 'main'              # an import statement needs a file to be relative to
     mm = metamodel_from_str(GRAMMAR)
     inner = P.PlainNameImportURI()
 
@@ -107,8 +121,10 @@ def load(kind, where, form, gap):
             # registered in the repository under an invented name — its errors still name no file
             tmpd = tempfile.mkdtemp(prefix='c28_')
             files = dict(files, **{'zlib.m': 'obj zlibobj'})
-            with open(os.path.join(tmpd, 'zlib.m'), 'w') as f:
-                f.write(files['zlib.m'])
+            for fn in files:
+                if fn != 'main':
+                    with open(os.path.join(tmpd, fn), 'w') as f:
+                        f.write(files[fn])
             if kind != 'unresolvable':
                 mm.register_scope_providers({'*.*': P.PlainNameGlobalRepo(os.path.join(tmpd, '*.m'))})
             try:
@@ -124,8 +140,8 @@ def load(kind, where, form, gap):
                 return ('err', e, {'filename': None, 'line': line, 'col': col})
         tmpd = tempfile.mkdtemp(prefix='c28_')
         for fn, content in files.items():
-            with open(os.path.join(tmpd, fn), 'w') as f:
-                f.write(content)
+            with open(os.path.join(tmpd, fn), 'wb') as f:
+                f.write(content.replace('\n', eol).encode('utf-8'))
         try:
             mm.model_from_file(os.path.join(tmpd, 'main'))
             return ('noerror', None, None)
@@ -141,15 +157,15 @@ def load(kind, where, form, gap):
             os.rmdir(tmpd)
 
 
-def judge(kind, where, form, gap):
+def judge(kind, where, form, gap, eol='\n'):
     try:
-        st, e, want = load(kind, where, form, gap)
+        st, e, want = load(kind, where, form, gap, eol)
     except Exception as ex:  # noqa
         return True, 'load raised %s: %s' % (type(ex).__name__, ex), None
     if st == 'noerror':
         return True, 'no error raised', None
     msgs = {'syntax': 'Expected', 'unknown': 'Unknown object', 'notunique': 'not unique',
-            'unresolvable': 'Unresolvable cross references'}
+            'unresolvable': 'Unresolvable cross references', 'notunique-in-import': 'not unique'}
     if msgs[kind] not in str(e):
         return True, 'unexpected error: %s' % str(e)[:100], None
     got = {'filename': e.filename, 'line': e.line, 'col': e.col}
@@ -175,8 +191,9 @@ def explore(item):
         where = pick(c, 'where', WHERE)
         form = pick(c, 'form', FORMS)
         gap = pick(c, 'gap', GAPS)
-        bad, detail, gw = judge(kind, where, form, gap)
-        return (bad, where, form, gap, detail, gw)
+        eol = pick(c, 'eol', EOLS) if not where.startswith('string') else '\n'
+        bad, detail, gw = judge(kind, where, form, gap, eol)
+        return (bad, where, form, gap, detail, gw, eol)
     outs = ctx.explore(path)
     return {'kind': kind, 'paths': ctx.paths, 'bad': [list(o[1:]) for o in outs if o[0]],
             'ok': sum(1 for o in outs if not o[0])}
@@ -204,7 +221,8 @@ def main():
     results = pmap(explore, [(k,) for k in KINDS])
     chk.cov['functions_encoded'] = src_hash(M.ReferenceResolver.resolve_one_step, M.parse_tree_to_objgraph,
                                             P.PlainName.__call__, M.get_model_parser)
-    chk.cov['bounds'] = {'kinds': KINDS, 'locations': WHERE, 'reference_forms': FORMS, 'layouts': len(GAPS)}
+    chk.cov['bounds'] = {'kinds': KINDS, 'locations': WHERE, 'reference_forms': FORMS, 'layouts': len(GAPS),
+                         'file_line_terminators': EOLS}
     chk.cov['outside_claim'] = ['other grammars, deeper import chains', 'other scope providers than ImportURI(PlainName)']
     chk.assumptions = ['finite space enumerated exhaustively (selectors are unconstrained: the solver decides nothing here)',
                        'Arpeggio pos_to_linecol (dependency) maps offsets to line/column']
@@ -217,7 +235,7 @@ def main():
         if r['ok'] == 0 and not r['bad']:
             chk.harness_error('vacuous: %s' % r['kind'])
         seen = set()
-        for where, form, gap, detail, gw in r['bad']:
+        for where, form, gap, detail, gw, eol in r['bad']:
             fid = classify(r['kind'], where, form, gap, detail, gw)
             if fid and chk.is_known(fid):
                 chk.known_hit(fid, '%s error in %s (%s): %s' % (r['kind'], where, form, detail))
@@ -227,8 +245,9 @@ def main():
                 continue
             seen.add(key)
             chk.cov['traces_validated_against_impl'] += 1
-            chk.violation('%s error, offending text in %s, %s reference, gap %r: %s' % (
-                r['kind'], where, form, gap, detail), {'kind': r['kind'], 'where': where, 'form': form, 'gap': gap})
+            chk.violation('%s error, offending text in %s, %s reference, gap %r, line ends %r: %s' % (
+                r['kind'], where, form, gap, eol, detail),
+                {'kind': r['kind'], 'where': where, 'form': form, 'gap': gap, 'eol': eol})
         chk.sample({'kind': r['kind'], 'loads': r['paths'], 'located_correctly': r['ok'], 'mislocated': len(r['bad'])})
     chk.cov['paths_explored'] = paths
     chk.cov['evaluations'] = paths
@@ -238,5 +257,5 @@ def main():
 
 
 def replay(data):
-    bad, detail, gw = judge(data['kind'], data['where'], data['form'], data['gap'])
+    bad, detail, gw = judge(data['kind'], data['where'], data['form'], data['gap'], data.get('eol', '\n'))
     return bad, detail
